@@ -23,7 +23,8 @@ CONSTANTS Client,          \* set of client scripts: Seq of items [k: "hs"|"app"
           DevSingleSendCall,          \* deviation: one send() per write(), return value ignored
           DevNoHsTimer,               \* deviation: no timer until the handshake has completed
           DevReadOnceAfterHandshake,  \* deviation: after the handshake only one recv(8192) is attempted
-          DevPlainTimeoutReply        \* deviation: the handshake timeout writes "40 ..." to the TCP transport, unencrypted
+          DevPlainTimeoutReply,       \* deviation: the handshake timeout writes "40 ..." to the TCP transport, unencrypted
+          DevCloseBeforeDeliver       \* deviation: plaintext of a read is handed over after the read's close_notify was acted on
 VARIABLES cfg, fed, half, hs, hsTimer, innerUp, plainIn, replied, submitted, tcp, clientGot, closeNotify,
           rawOut      \* the server has put bytes on the TCP connection that are not TLS records
 vars == <<cfg, fed, half, hs, hsTimer, innerUp, plainIn, replied, submitted, tcp, clientGot, closeNotify, rawOut>>
@@ -58,7 +59,7 @@ Cipher(upto, leaveHalf) ==
          done == hs = "done" \/ completes
          apps == AppBytes(fed + 1, upj)
          \* plaintext handed to the inner protocol in this callback
-         handed == IF ~done THEN 0
+         handed == IF ~done \/ (DevCloseBeforeDeliver /\ \E i \in 1..Len(pre) : pre[i].k = "close") THEN 0
                    ELSE IF completes /\ DevReadOnceAfterHandshake THEN
                         Min(RecvMax, IF \E i \in 1..Len(pre) : pre[i].k = "app"
                                        THEN pre[CHOOSE i \in 1..Len(pre) : pre[i].k = "app" /\ \A j \in 1..(i - 1) : pre[j].k # "app"].plen
@@ -106,6 +107,10 @@ PlainInOrder == plainIn <= AppBytes(1, fed)                                     
 \* C07: every byte of every completely received record has been handed to the inner protocol, however the
 \* ciphertext was split into TCP reads (incl. records coalesced with the end of the handshake)
 PlainComplete == (hs = "done" /\ tcp = "open") => plainIn = AppBytes(1, fed)
+\* C07: a request the client has sent completely is answered whichever read its last byte shares with whatever follows it
+\* (further records, the client's close_notify): the reply does not depend on where the reads fall
+RequestAnswered == (hs = "done" /\ AppBytes(1, fed) >= cfg.r.after /\ \A i \in 1..fed : Items[i].k # "junk")
+                      => (replied /\ clientGot = submitted)
 HsTimerWhileHandshaking == (hs = "pending" /\ tcp = "open") => hsTimer = "armed"    \* C15
 SilentPeerDropped == <>(hs = "done" \/ tcp # "open")                                \* C15: the handshake never hangs
 =============================================================================
